@@ -19,12 +19,12 @@ func TestMain(m *testing.M) { engine.Main(m) }
 
 // Case holds raw integer material; each helper converts it into its own domain.
 type Case struct {
-	Xs  []int `json:"xs"`
-	Ys  []int `json:"ys"`
-	Zs  []int `json:"zs"`
-	K   int   `json:"k"`  // count / before / size parameter
-	K2  int   `json:"k2"` // second parameter (echo count, duplicate count, fill, ...)
-	Cap int   `json:"cap"`
+	Xs  []int  `json:"xs"`
+	Ys  []int  `json:"ys"`
+	Zs  []int  `json:"zs"`
+	K   int    `json:"k"`  // count / before / size parameter
+	K2  int    `json:"k2"` // second parameter (echo count, duplicate count, fill, ...)
+	Cap int    `json:"cap"`
 	FM  uint64 `json:"fm"`
 	SM  uint64 `json:"sm"`
 }
@@ -154,10 +154,14 @@ func specs[T num]() []spec[T] {
 			build: func(c Case, in []<-chan T) []<-chan T { return one(helper.Map(in[0], func(x T) T { return 2*x + 1 })) },
 			model: ap(func(x T) T { return 2*x + 1 })},
 		{name: "Apply", nin: 1,
-			build: func(c Case, in []<-chan T) []<-chan T { return one(helper.Apply(in[0], func(x T) T { return x*x - 1 })) },
+			build: func(c Case, in []<-chan T) []<-chan T {
+				return one(helper.Apply(in[0], func(x T) T { return x*x - 1 }))
+			},
 			model: ap(func(x T) T { return x*x - 1 })},
 		{name: "Filter", nin: 1,
-			build: func(c Case, in []<-chan T) []<-chan T { return one(helper.Filter(in[0], func(x T) bool { return x > 0 })) },
+			build: func(c Case, in []<-chan T) []<-chan T {
+				return one(helper.Filter(in[0], func(x T) bool { return x > 0 }))
+			},
 			model: func(c Case, in [][]T) [][]T {
 				var out []T
 				for _, x := range in[0] {
@@ -537,11 +541,11 @@ type row struct {
 }
 
 type miscCase struct {
-	Xs []int `json:"xs"`
-	Vs []int `json:"vs"` // values for Gcd/Lcm
-	D1 int   `json:"d1"` // hours offsets for DaysBetween
-	D2 int   `json:"d2"`
-	Cap int  `json:"cap"`
+	Xs  []int `json:"xs"`
+	Vs  []int `json:"vs"` // values for Gcd/Lcm
+	D1  int   `json:"d1"` // hours offsets for DaysBetween
+	D2  int   `json:"d2"`
+	Cap int   `json:"cap"`
 }
 
 func gcd(a, b int) int {
